@@ -105,11 +105,13 @@ CLAIMS["C16"] = (
     "handleStmtReset clears the statement; handleStmtSendLongData writes exactly one parameter slot of exactly one statement (frame "
     "obligation per store) and rejects unknown ids / out-of-range parameters; bindStmtArgs and the binary date formatters write only the "
     "statement's args (frame verified in bit-vector mode); handleStmtClose removes exactly the named statement (every other id keeps its "
-    "statement object).",
+    "statement object); handleStmtPrepare registers a fresh statement object under the session's next id with every parameter unbound and "
+    "leaves every other registered statement untouched (a statement that cannot be prepared registers nothing).",
     "Assumed: handleQuery and GetRewriteSQL do not write the statement table or Stmt fields (assumed callee contracts, listed in the evidence); "
     "panic paths are not modelled (bindStmtArgs may panic on truncated values; the deferred reset runs during unwinding); the session "
-    "invariant stmtWF (len(args) == paramCount) is assumed at entry; handleStmtPrepare is not under contract, so "
-    "'statements never see each other's values' is decided per command for execute/reset/long-data/close only.",
+    "invariant stmtWF (len(args) == paramCount) is assumed at entry; fewer than 2^32 prepares per session (the id counter would wrap "
+    "onto a live statement); 'statements never see each other's values' is decided per command, the history quantifier is induction "
+    "over the commands (meta-argument).",
     "DESIGN.md section 4, C16")
 
 CLAIMS["C31"] = (
